@@ -77,9 +77,26 @@ TIMES = st.one_of(
 )
 
 
-def as_time(t, use_datetime):
-    """The decoders document int or datetime time stamps: optionally turn seconds into a datetime."""
-    if not use_datetime:
+import os as _os
+import time as _time
+
+# naive datetime stamps are ordered by their wall-clock fields, whatever the host's zone is: pin a zone with DST so that a decoder that
+# detours through local time (datetime.timestamp()) is seen to misorder stamps around the spring-forward gap
+_os.environ["TZ"] = "CET-1CEST,M3.5.0,M10.5.0/3"
+_time.tzset()
+
+
+def as_time(t, mode):
+    """The decoders document int or datetime time stamps.  mode 0/False: number; 1/True: naive datetime; 2: naive datetimes in the hour that
+    does not exist on 2024-03-31 in the pinned zone (02:59:5x ... 03:00:0x), where local-time conversions are not monotone."""
+    if not mode:
         return t
     import datetime
+    if mode == 2:
+        return datetime.datetime(2024, 3, 31, 2, 59, 55) + datetime.timedelta(seconds=t % 10.0)
     return datetime.datetime(2024, 5, 17, 12, 0, 0) + datetime.timedelta(seconds=t)
+
+
+def time_key(t, mode):
+    """the ordering the property talks about: the stamps themselves"""
+    return t % 10.0 if mode == 2 else t
